@@ -226,11 +226,41 @@ def transient_program(rng):
     return "\n".join(src) + "\n"
 
 
+# The memory the process really holds, against the counted heap: programs with a SMALL bounded live set whose garbage owns large
+# out-of-line buffers (the 256 KiB value stack of a fiber, the element buffer of a long vector, the text of a long string).  The byte
+# counter that paces collections charges an object with the size of its own box only, so such garbage is nearly free for the pacing and
+# piles up (known finding F54).  Each entry: (name, program, resident-memory ceiling in MiB that a heap bounded by the live set stays under).
+FOOTPRINT = [
+    ("F54-garbage-fibers", "var keep = []; var i = 0; while i < 20000 { keep.push([i]); i = i + 1; } i = 0; while i < 4000 { var f = Fiber.new(|| 1); i = i + 1; } print(\"done\");", 150),
+    ("F54-garbage-long-vectors", "var i = 0; while i < 1500 { var v = []; var j = 0; while j < 20000 { v.push(j); j = j + 1; } i = i + 1; } print(\"done\");", 100),
+]
+
+
+def footprint_failures(runner):
+    import subprocess
+    out = []
+    for name, src, ceiling in FOOTPRINT:
+        line = vlib.case_line("m", ["S:" + vlib.hx(src)], steps=2000000000)
+        try:
+            p = subprocess.run(["/usr/bin/time", "-f", "maxrss_kb=%M", runner], input=line + "\n", capture_output=True, text=True, timeout=300)
+            rss = int(p.stderr.strip().rsplit("maxrss_kb=", 1)[1]) // 1024
+        except Exception as e:
+            out.append({"what": "footprint probe %s did not run: %s" % (name, str(e)[:200]), "program": src, "name": name, "signature": "footprint probe failed", "failing_input": True})
+            continue
+        if "\"done\"" not in p.stdout:
+            out.append({"what": "footprint probe %s did not finish: %s" % (name, p.stdout[:200]), "program": src, "name": name, "signature": "footprint probe failed", "failing_input": True})
+        elif rss > ceiling:
+            out.append({"what": "a program with a small bounded live set held %d MiB of memory (ceiling %d MiB): garbage that owns large buffers is not reclaimed in step with what it occupies" % (rss, ceiling),
+                        "program": src, "name": name, "resident_mib": rss, "signature": "known F54", "failing_input": True})
+    return out
+
+
 def correspondence(ctx, model_ok=True):
     rng = ctx.rng.fork("c16")
     failures = []
     broken = []
     runner = ctx.runner   # release build = the threshold-paced configuration
+    failures += footprint_failures(runner)
     n_pace = 40 if ctx.thorough else 10
     pace_progs = []
     for i in range(n_pace):
